@@ -670,10 +670,10 @@ Qed.
 Definition and_scratch (ord : hord) (sh : expr -> expr) (shaken : list expr) : list expr :=
   let nested :=
     fold_left (fun m x => match x with
-                          | ENested f inner => amap_push f [inner] m
+                          | ENested f inner => if is_all_match inner then m else amap_push f [inner] m
                           | _ => m
                           end) shaken [] in
-  let plain := filter (fun x => match x with ENested _ _ => false | _ => true end) shaken in
+  let plain := filter (fun x => match x with ENested _ inner => is_all_match inner | _ => true end) shaken in
   let merged :=
     map (fun kv : key * list expr =>
            let '(f, es) := kv in
@@ -731,11 +731,12 @@ Proof.
     apply Hs. exact (proj1 Hx).
   - rewrite Forall_map.
     assert (Hm : Forall PVg (fold_left (fun m x => match x with
-                          | ENested f inner => amap_push f [inner] m
+                          | ENested f inner => if is_all_match inner then m else amap_push f [inner] m
                           | _ => m
                           end) shaken [])).
     { apply (fold_left_inv _ (Forall PVg) Pg); [|constructor|exact Hs].
       intros m x Hm Hx. destruct x; try exact Hm.
+      destruct (is_all_match x); [exact Hm|].
       apply amap_push_F; [exact Hm|]. constructor; [exact Hx | constructor]. }
     apply (amap_iter_F ord (Forall Pg)) in Hm.
     eapply Forall_impl; [|exact Hm]. intros [f es] Hes. cbn [snd] in Hes.
@@ -754,8 +755,11 @@ Proof.
   destruct x as [ ?s ?g | ?l1 ?op ?r1 | ?b | ?f ?m | ?f | ?x | ?i | ?z | ?k ?e | ?cols ?rows | ?e | ?f ?e | | s f cst ];
     try (split; [|split]; cbn [oa_any oa_rest oa_nested]; try assumption;
          apply C03.Forall_snoc; assumption).
-  - split; [|split]; cbn [oa_any oa_rest oa_nested]; try assumption.
-    apply amap_push_F; [exact H3|]. constructor; [exact Hx | constructor].
+  - destruct (is_all_match e).
+    + split; [|split]; cbn [oa_any oa_rest oa_nested]; try assumption.
+      apply C03.Forall_snoc; assumption.
+    + split; [|split]; cbn [oa_any oa_rest oa_nested]; try assumption.
+      apply amap_push_F; [exact H3|]. constructor; [exact Hx | constructor].
   - destruct s; cbn [mt_of_search];
       (split; [|split]; cbn [oa_any oa_rest oa_nested]; try assumption;
        apply C03.Forall_snoc; assumption).
